@@ -17,7 +17,9 @@ Layer 2 (histories)
     c09.closure.v2             one SparseVector of size 2 (+ constant operands), values on a dyadic lattice,
                                searched until the frontier is empty = ALL histories of ANY length in the lattice
     c09.heap.n{2,3}            heap {v, w, u(size 1), m (logical), A (2 x n)} with in-place operations between
-                               heap members (incl. an object with itself) and constants, depth-bounded
+                               heap members (incl. an object with itself) and constants, depth 2 (quick) / 3 (thorough)
+    c09.heap.alias             heap {v, A, r} where r IS the first row of A (operand overlapping its in-place target)
+    c09.heap.deep              heap {v, w, A} over a 50-action alphabet without division, depth 3 (quick) / 6 or the time cap
 
 Oracle (DESIGN 3, 3b): an operation is in the compared domain iff NumPy evaluates it on the dense images
 without raising and without a floating-point error (np.errstate(all='raise')).  Inside the domain the dense
@@ -62,7 +64,7 @@ ASSUMPTIONS = [
     'sequences of up to ~30 operations are covered only where the search reaches closure (c09.closure.v2); the heap systems are depth-bounded',
 ]
 TOLERANCES = {'value_equality': 'exact (==) on float64 dense images', 'closure_lattice_quick': 'k/4, |k|<=16 (1 089 states)',
-              'closure_lattice_thorough': 'k/8, |k|<=32 (4 225 states)', 'heap_lattices': 'see the describe() entry of each history system'}
+              'closure_lattice_thorough': 'k/16, |k|<=64 (16 641 states)', 'heap_lattices': 'see the describe() entry of each history system'}
 
 # --------------------------------------------------------------------------------------------------
 _sp = None
@@ -1609,11 +1611,11 @@ SYSTEMS = [
     CtorSystem(),
     ReadOnlySystem('SV'), ReadOnlySystem('SA'),
     # closure: every history of any length of one vector of size 2 inside the lattice
-    HeapSystem('c09.closure.v2', 2, ('v',), None, None, consts='full', lattice_t=(8, 32), tcap_q=60, tcap_t=480),
+    HeapSystem('c09.closure.v2', 2, ('v',), None, None, consts='full', tcap_q=60, tcap_t=480),
     HeapSystem('c09.heap.n2', 2, ('v', 'w', 'u', 'm', 'A'), 2, 3, consts='small', tcap_q=60, tcap_t=240),
     HeapSystem('c09.heap.n3', 3, ('v', 'w', 'm', 'A'), 2, 3, consts='small', tcap_q=60, tcap_t=240),
     # deep search over a small alphabet (no division): depth 3 (quick) / 6 (thorough, or the time cap)
     # aliasing inside the heap: r is the first ROW of A (NumPy semantics for overlapping operands: as if the operand were copied first)
     HeapSystem('c09.heap.alias', 2, ('v', 'A', 'r'), 2, 4, consts='tiny', lattice_q=(2, 8), lattice_t=(4, 32), tcap_q=60, tcap_t=180),
-    HeapSystem('c09.heap.deep', 2, ('v', 'w', 'A'), 3, 6, consts='tiny', lattice_q=(2, 8), lattice_t=(4, 32), tcap_q=60, tcap_t=240),
+    HeapSystem('c09.heap.deep', 2, ('v', 'w', 'A'), 3, 6, consts='tiny', lattice_q=(2, 8), lattice_t=(4, 32), tcap_q=60, tcap_t=180),
 ]
